@@ -1,4 +1,4 @@
-import GeoVerif.Proofs.DMS
+import GeoVerif.Proofs.DMSClosure
 /-!
 # C10 — text formatting and parsing of angles and positions: property theorems
 
@@ -215,9 +215,7 @@ theorem comps_missing_number (f npiece : Nat) (sl : Slots) (s rest : Bytes) (n :
 
 /-! ### the encoder's field layouts are parsed into exactly their numbers (closure of formatter into parser, field level) -/
 
-def numOf (ds : Bytes) : Num := { int := digitsVal 0 ds, nint := ds.length }
-def numFracOf (ds fs : Bytes) : Num :=
-  { int := digitsVal 0 ds, nint := ds.length, point := true, frac := digitsVal 0 fs, nfrac := fs.length }
+-- `numOf ds`, `numFracOf ds fs` (`Proofs/DMSGrammar.lean`): the `Num` records of the texts `ds` and `ds.fs`
 
 /-- `D d M ' S . F "` (every digit string `D M S F`, `D M S` non-empty): degrees, minutes and seconds-with-fraction -/
 theorem grammar_dms (D M S F : Bytes) (hD : AllDigits D) (hM : AllDigits M) (hS : AllDigits S) (hF : AllDigits F)
@@ -300,6 +298,79 @@ example : comps 4 0 {} (strBytes "20d30'40.5\"") =
   decide
 example : comps 4 0 {} (strBytes "1:2:3:4:5") = .error "More than 3 DMS components" := by decide
 example : comps 4 0 {} [49, 0, 50] = .error "Illegal character" := by decide
+
+
+/-! ## closure of the formatter into the parser (all finite angles, all precisions, all flags) -/
+
+/-- **`encode_in_grammar`: every output of `Encode` for a finite angle is a text of the grammar that the parser accepts.**
+    For every finite binary64 `±m·2^e`, trailing component `t ∈ {DEGREE, MINUTE, SECOND}`, every requested precision `p`
+    (clamped to `clampPrec t p`), every flag `NONE / LATITUDE / LONGITUDE / AZIMUTH` and every separator byte `sep`
+    (0 = indicators `d ' "`): the output is `[-] D [d M [' S]] [.F] [' | "] [S|N|W|E]` — `dmsText` — with non-empty
+    digit strings `D M S` (only the bytes `0…9`; leading zeros from the zero fill included), exactly `clampPrec t p`
+    fraction digits `F` and a point iff that number is positive, the sign only without a flag, the hemisphere letter only
+    for LATITUDE / LONGITUDE and chosen by the sign; the digit strings denote the numbers `encFields` (degrees including the
+    carry, minutes, seconds, fraction units).  For the two separators `Decode` understands (none, `:`) the component loop
+    parses that text into exactly those three numbers (`slotsOf`). -/
+theorem encode_in_grammar (s : Bool) (m : Nat) (e : Int) (t p : Nat) (ind : Flag) (sep : Nat) (ht : t ≤ 2) :
+    let h := encodeHead (.fin s m e) t p ind
+    ∃ D M S F : Bytes, AllDigits D ∧ AllDigits M ∧ AllDigits S ∧ AllDigits F ∧ D ≠ [] ∧ M ≠ [] ∧ S ≠ [] ∧
+      F.length = clampPrec t p ∧
+      digitsVal 0 D = (encFields h t).1 ∧ digitsVal 0 M = (encFields h t).2.1 ∧ digitsVal 0 S = (encFields h t).2.2.1 ∧
+      digitsVal 0 F = (encFields h t).2.2.2 ∧
+      encode (.fin s m e) t p ind sep = sgnText ind h.neg ++ dmsText t sep D M S F ++ hemiText ind h.neg ∧
+      (sep = 0 ∨ sep = 58 → comps 4 0 {} (dmsText t sep D M S F) = .ok (slotsOf t D M S F)) := by
+  intro h
+  obtain ⟨D, M, S, F, hD, hM, hS, hF, nD, nM, nS, hl, v1, v2, v3, v4, henc⟩ := encode_shape s m e t p ind sep ht
+  exact ⟨D, M, S, F, hD, hM, hS, hF, nD, nM, nS, hl, v1, v2, v3, v4, henc,
+    fun hsep => grammar_text t sep D M S F ht hsep hD hM hS hF nD nM nS⟩
+
+/-- the general grammar theorem behind it: every `dmsText` (indicator or `:` style, with or without fraction, trailing
+    degrees / minutes / seconds) is parsed into exactly its numbers -/
+theorem grammar_all (t sep : Nat) (D M S F : Bytes) (ht : t ≤ 2) (hsep : sep = 0 ∨ sep = 58)
+    (hD : AllDigits D) (hM : AllDigits M) (hS : AllDigits S) (hF : AllDigits F) (nD : D ≠ []) (nM : M ≠ []) (nS : S ≠ []) :
+    comps 4 0 {} (dmsText t sep D M S F) = .ok (slotsOf t D M S F) :=
+  grammar_text t sep D M S F ht hsep hD hM hS hF nD nM nS
+
+/-- `%.*f` (`Utility::str` on a finite number) writes only digits, at most one point, exactly `p` decimals -/
+theorem fmtFixed_shape (x : F64) (p : Nat) :
+    ∃ I F : Bytes, fmtFixed x p = (if x.signbit then [45] else []) ++ I ++ (if p = 0 then [] else 46 :: F) ∧
+      AllDigits I ∧ I ≠ [] ∧ AllDigits F ∧ F.length = p ∧
+      digitsVal 0 I = fixedUnits x p / 10 ^ p ∧ digitsVal 0 F = fixedUnits x p % 10 ^ p := by
+  obtain ⟨I, F, h, r⟩ := unitsToFixed_shape (fixedUnits x p) p
+  exact ⟨I, F, by simp only [fmtFixed, h, List.append_assoc], r⟩
+
+/-- **`decode_encode` (discrete part, all finite angles)**: `Decode (Encode x …)` — through the whole byte pipeline
+    `replaceAll`, `trim`, `pieces`, `strip`, `comps` — is the numeric stage `evalSlots` applied to the printed fields
+    (`D M S F` of `encode_in_grammar`, values `encFields`), added to `-0`, with the sign the encoder wrote (`readNeg`:
+    the sign of the angle, none for AZIMUTH) and the flag of the hemisphere class (`readFlag`: LATITUDE for `N/S`,
+    LONGITUDE for `E/W`, NONE otherwise).  The numeric stage is total on these fields for `|x| < 2^40`
+    (`decode_encode_value` below). -/
+theorem decode_encode (s : Bool) (m : Nat) (e : Int) (t p : Nat) (ind : Flag) (sep : Nat) (ht : t ≤ 2)
+    (hsep : sep = 0 ∨ sep = 58) (hind : ind ≠ Flag.num) :
+    let h := encodeHead (.fin s m e) t p ind
+    ∃ D M S F : Bytes, AllDigits D ∧ AllDigits M ∧ AllDigits S ∧ AllDigits F ∧ D ≠ [] ∧ M ≠ [] ∧ S ≠ [] ∧
+      F.length = clampPrec t p ∧
+      digitsVal 0 D = (encFields h t).1 ∧ digitsVal 0 M = (encFields h t).2.1 ∧ digitsVal 0 S = (encFields h t).2.2.1 ∧
+      digitsVal 0 F = (encFields h t).2.2.2 ∧
+      ∀ v, evalSlots (readNeg ind h.neg) (slotsOf t D M S F) = .ok v →
+        decode (encode (.fin s m e) t p ind sep) = .ok (F64.add F64.nzero v, readFlag ind) := by
+  intro h
+  obtain ⟨D, M, S, F, hD, hM, hS, hF, nD, nM, nS, hl, v1, v2, v3, v4, henc⟩ := encode_shape s m e t p ind sep ht
+  refine ⟨D, M, S, F, hD, hM, hS, hF, nD, nM, nS, hl, v1, v2, v3, v4, fun v hv => ?_⟩
+  rw [henc]
+  exact decode_layout t sep D M S F ind h.neg v ht hsep hind hD hM hS hF nD nM nS hv
+
+/-- the same for any text of the grammar with the encoder's sign / letter layout (not only encoder outputs) -/
+theorem grammar_decodes (t sep : Nat) (D M S F : Bytes) (ind : Flag) (neg : Bool) (v : F64) (ht : t ≤ 2)
+    (hsep : sep = 0 ∨ sep = 58) (hind : ind ≠ Flag.num)
+    (hD : AllDigits D) (hM : AllDigits M) (hS : AllDigits S) (hF : AllDigits F) (nD : D ≠ []) (nM : M ≠ []) (nS : S ≠ [])
+    (hv : evalSlots (readNeg ind neg) (slotsOf t D M S F) = .ok v) :
+    decode (sgnText ind neg ++ dmsText t sep D M S F ++ hemiText ind neg) = .ok (F64.add F64.nzero v, readFlag ind) :=
+  decode_layout t sep D M S F ind neg v ht hsep hind hD hM hS hF nD nM nS hv
+
+-- non-vacuity: concrete encoder outputs and their decoding (the model is executable)
+example : encode (F64.fin true 81 (-2)) 2 1 Flag.lat 0 = strBytes "20d15'00.0\"S" := by decide +kernel
+example : (decode (strBytes "20d15'00.0\"S")).toOption.map (·.2) = some Flag.lat := by decide +kernel
 
 /-! ## hemisphere and sign rules -/
 
